@@ -358,6 +358,10 @@ func leafAssume(x *Term, l Leaf) []*Term {
 		}
 	case LStr, LRef, LTag, LSBase, LSOff, LSLen, LFloat, LData:
 		if l.Kind == LData {
+			// data words of module interfaces hold object references
+			if n, ok := l.T.(*types.Named); ok && n.Obj().Pkg() != nil && modPath != "" && strings.HasPrefix(n.Obj().Pkg().Path(), modPath) {
+				return []*Term{Le(IntC(0), x)}
+			}
 			return nil
 		}
 		return []*Term{Le(IntC(0), x)}
@@ -383,3 +387,5 @@ func valIte(c *Term, a, b Val) Val {
 	}
 	return out
 }
+
+var modPath string
